@@ -4,7 +4,8 @@ from pyvc import runner
 PID = "C12"
 FUNCS = ["pyrex.io.EventIterator." + f for f in ("__init__", "__next__", "_load_data", "_get_event_data", "_get_index_from_list")] + \
     ["pyrex.io.HDF5Reader.__getitem__", "pyrex.io.HDF5Reader.__iter__", "pyrex.io.HDF5Reader.__len__"] + \
-    ["pyrex.generation.FileGenerator." + f for f in ("__init__", "count", "_load_events", "_next_file", "create_event")]
+    ["pyrex.generation.FileGenerator." + f for f in ("__init__", "count", "_load_events", "_next_file", "create_event")] + \
+    ["pyrex.io.HDF5Writer.open", "pyrex.io.HDF5Writer._write_particles"]
 
 
 def setup(rep):
@@ -17,7 +18,10 @@ def setup(rep):
                "loaded chunk; _get_event_data returns the current event's entry")
     rep.clause("indexing", "P", "constructor normalises negative bounds and rejects out-of-range bounds / non-positive steps; f[k] "
                "selects event k mod n; f[a:b:c] hands the bounds over unchanged with a positive chunk size; iteration is the whole file")
-    rep.clause("append-mode", "B", "counter recovery when continuing a file: C11 append-mode clause")
+    rep.clause("append-sessions", "P", "HDF5Writer.open in 'a'/'r+' mode on an existing file takes every row counter from the file "
+               "(longer of the str/float tables for metadata groups, 0 for absent tables, none for per-file tables) and carries no "
+               "other state: the session's first event appends its particle rows after the existing ones and adds its throw count "
+               "to the stored total (h5py.File stubbed by a fake file with symbolic table sizes, A8)")
     rep.clause("file-generator", "B", "replays every stored particle once, in order across files and chunk sizes, copies all particle fields "
                "and weights, accumulates per-file thrown counts, then stops - file sizes (2,1,3),(1,), chunk sizes 1,2,3,5")
     rep.clause("total_events_thrown-rounding", "N", "proportional thrown-count estimate of an event (rounding) is not covered")
